@@ -365,6 +365,7 @@ structure ChunkOut where
   cmeta : TVal                -- the ColumnChunk struct
   oracle : Oracle
   endPos : Nat
+  usize : Nat                 -- total_uncompressed_size: page headers + uncompressed page bodies
 
 /-- one chunk placed at file offset `pos` (before its gap) -/
 def writeChunk (leaf : LeafInfo) (cl : ChunkLayout) (es : Chunk) (pos : Nat) : Option ChunkOut :=
@@ -394,7 +395,8 @@ def writeChunk (leaf : LeafInfo) (cl : ChunkLayout) (es : Chunk) (pos : Nat) : O
             cl.metaExtra)
           cl.chunkExtra,
         dp.oracle ++ pages.oracle,
-        pos + cl.gapBefore.length + dp.bytes.length + pages.bytes.length⟩
+        pos + cl.gapBefore.length + dp.bytes.length + pages.bytes.length,
+        dp.usize + pages.usize⟩
     | _, _ => none
 
 structure GroupOut where
@@ -402,16 +404,17 @@ structure GroupOut where
   metas : List TVal
   oracle : Oracle
   endPos : Nat
+  usize : Nat                 -- Σ total_uncompressed_size of the chunks laid out
 
 def writeChunks : List LeafInfo → List ChunkLayout → List Chunk → Nat → Option GroupOut
-  | [], [], [], pos => some ⟨[], [], [], pos⟩
+  | [], [], [], pos => some ⟨[], [], [], pos, 0⟩
   | leaf :: ls, cl :: cls, es :: ess, pos =>
     match writeChunk leaf cl es pos with
     | none => none
     | some c =>
       match writeChunks ls cls ess c.endPos with
       | none => none
-      | some g => some ⟨c.bytes ++ g.bytes, c.cmeta :: g.metas, c.oracle ++ g.oracle, g.endPos⟩
+      | some g => some ⟨c.bytes ++ g.bytes, c.cmeta :: g.metas, c.oracle ++ g.oracle, g.endPos, c.usize + g.usize⟩
   | _, _, _, _ => none
 
 def groupRows (leaves : List LeafInfo) (g : RowGroup) : Nat :=
@@ -421,7 +424,7 @@ def groupRows (leaves : List LeafInfo) (g : RowGroup) : Nat :=
 
 def writeGroups (leaves : List LeafInfo) (extra : Fields) :
     List (List ChunkLayout) → List RowGroup → Nat → Option GroupOut
-  | [], [], pos => some ⟨[], [], [], pos⟩
+  | [], [], pos => some ⟨[], [], [], pos, 0⟩
   | cls :: r, g :: gs, pos =>
     if !(List.zipWith (fun (l : LeafInfo) c => rowsOf l.maxRep c == groupRows leaves g) leaves g.chunks).all id then none
     else
@@ -432,8 +435,9 @@ def writeGroups (leaves : List LeafInfo) (extra : Fields) :
         | none => none
         | some rest =>
           some ⟨o.bytes ++ rest.bytes,
-            rowGroupTV o.metas (o.bytes.length) (groupRows leaves g) extra :: rest.metas,
-            o.oracle ++ rest.oracle, rest.endPos⟩
+            -- RowGroup.total_byte_size: "Total byte size of all the uncompressed column data in this row group"
+            rowGroupTV o.metas o.usize (groupRows leaves g) extra :: rest.metas,
+            o.oracle ++ rest.oracle, rest.endPos, o.usize + rest.usize⟩
   | _, _, _ => none
 
 /-- the file and the oracle table of its GZIP / ZSTD page bodies -/
